@@ -236,7 +236,9 @@ def _func_case(draw, tier):
         shape = draw(st.sampled_from([[2, 2], [3, 2], [4, 4]]))
         chunks = [draw(_logint(20000, 40000))] + chunks[:1]
     return dict(part="func", Fd=fdts / ts, Ts=ts, L=L, shape=shape,
-                seed=draw(seeds), start=start, chunks=chunks)
+                seed=draw(seeds), start=start, chunks=chunks,
+                # exactly ONE of the two documented phase arguments given
+                only=draw(st.sampled_from([None, None, None, "phi", "psi"])))
 
 
 @st.composite
@@ -600,6 +602,46 @@ def _check_func(case, ctx):
     phi_arg, psi_arg = phi.copy(), psi.copy()
     pos = int(case["start"])
     cur = pos * ts
+    only = case.get("only")
+    if only == "psi":
+        # only the ray phases given: at time 0 the Doppler terms vanish, the
+        # first sample is L^-1/2 sum exp(j psi_l) whatever the angles are
+        tg = _tags(case, 0, 1, "func")
+        _, h0 = _call(lambda: generate_jakes_samples(
+            fd, ts, 2, L, shape=_shape_arg(shape), current_time=0.0,
+            psi_l=psi_arg), tg)
+        ref0 = _model(phi, psi, fd, ts, L, 0, 1)
+        h0 = np.asarray(h0)
+        ctx.close("func_given_phase_used",
+                  float(np.max(np.abs(h0[..., :1] - ref0))) if
+                  h0.shape == shp + (2,) else math.inf,
+                  1e-12 * math.sqrt(L), "only psi_l given: the sample at "
+                  "time 0 is not L^-1/2 sum exp(j psi_l)", tg)
+        ctx.label("func_only_psi_given")
+    elif only == "phi" and not shp:
+        # only the arrival angles given: the samples are a combination of L
+        # exponentials of KNOWN frequencies with amplitudes of modulus
+        # L^-1/2 (least squares over 4L samples)
+        n_ls = 4 * L
+        tg = _tags(case, pos, n_ls, "func")
+        _, hh = _call(lambda: generate_jakes_samples(
+            fd, ts, n_ls, L, current_time=pos * ts, phi_l=phi_arg), tg)
+        hh = np.asarray(hh).reshape(-1)
+        B = np.stack([_model(phi[l:l + 1], np.zeros_like(phi[l:l + 1]), fd,
+                             ts, 1, pos, n_ls).reshape(-1)
+                      for l in range(L)], axis=1)
+        if hh.shape == (n_ls,):
+            a, *_ = np.linalg.lstsq(B, hh, rcond=None)
+            res = float(np.linalg.norm(B @ a - hh)) / math.sqrt(n_ls)
+            # (the basis can be nearly collinear - slow Doppler shifts -
+            # and least squares then leaves 1e-6..1e-5; a discarded phi_l
+            # leaves a residual of order 1)
+            ctx.close("func_given_phase_used", res,
+                      1e-3 + 10.0 * _rho(n_ls, pos + n_ls, 1),
+                      "only phi_l given: the samples are not a combination "
+                      "of the L exponentials with the given Doppler shifts "
+                      "(rms residual)", tg)
+            ctx.label("func_only_phi_given")
     generated = 0
     ops = 0
     max_rho = 0.0
